@@ -23,15 +23,17 @@ type crun struct {
 	out  *harness.Outcome
 	rng  *core.Rng
 
-	coins     map[int][]*cluster.Coin // produced by plan op index
-	txOf      map[int]*common.VersionedTransaction
-	accepted  []crypto.Hash // submissions the network must eventually finalize
-	conflicts map[crypto.Hash]bool
-	lostQueue map[int]bool // nodes that lost their cache DB
-	lastFault time.Duration
-	extra     map[string]func(op harness.Op, idx int) // property-specific op kinds
-	settled   func() bool                             // optional extra convergence predicate
-	mem       *memRig                                 // membership rig of this run, if any
+	coins       map[int][]*cluster.Coin // produced by plan op index
+	txOf        map[int]*common.VersionedTransaction
+	accepted    []crypto.Hash // submissions the network must eventually finalize
+	conflicts   map[crypto.Hash]bool
+	lostQueue   map[int]bool // nodes that lost their cache DB
+	backedUp    map[int]bool
+	submittedTo map[crypto.Hash]int // accepted submission -> node it was handed to
+	lastFault   time.Duration
+	extra       map[string]func(op harness.Op, idx int) // property-specific op kinds
+	settled     func() bool                             // optional extra convergence predicate
+	mem         *memRig                                 // membership rig of this run, if any
 }
 
 var clusterComponents = map[string]string{
@@ -102,7 +104,7 @@ func newClusterRun(prop string, p *harness.Plan) (*crun, error) {
 		c.Nodes[int(p.P("bootstop_node", 0))%cfg.Nodes].StartCrashAt = int(k)
 	}
 	r := &crun{prop: prop, plan: p, c: c, out: harness.NewOutcome(), rng: core.NewRng(core.SplitMix64(p.Seed ^ 0xc1)),
-		coins: map[int][]*cluster.Coin{}, txOf: map[int]*common.VersionedTransaction{}, conflicts: map[crypto.Hash]bool{}, lostQueue: map[int]bool{},
+		coins: map[int][]*cluster.Coin{}, txOf: map[int]*common.VersionedTransaction{}, conflicts: map[crypto.Hash]bool{}, lostQueue: map[int]bool{}, backedUp: map[int]bool{}, submittedTo: map[crypto.Hash]int{},
 		extra: map[string]func(harness.Op, int){}}
 	return r, nil
 }
@@ -371,6 +373,48 @@ func (r *crun) apply(op harness.Op, idx int) {
 				c.Violate("C22", "restart-failed", err.Error(), n)
 			}
 		})
+	case "diskbackup":
+		// the operator stops the node, copies its disk and starts it again
+		n := r.node(op.N)
+		if !n.Alive {
+			return
+		}
+		c.Crash(n, false)
+		if err := c.BackupDisk(n); err != nil {
+			r.out.ToolError = err.Error()
+			c.Halt = true
+			return
+		}
+		r.backedUp[n.Idx] = true
+		r.dropPendingOf(n)
+		if err := c.Restart(n); err != nil {
+			c.Violate("C22", "restart-failed", err.Error(), n)
+		}
+		r.fault("disk.backup_taken", c.Q.Now)
+	case "diskrestore":
+		// later the node is stopped and started from that older image: everything it wrote since is gone
+		n := r.node(op.N)
+		if !n.Alive || !r.backedUp[n.Idx] {
+			return
+		}
+		c.Crash(n, false)
+		if err := c.RestoreDisk(n); err != nil {
+			r.out.ToolError = err.Error()
+			c.Halt = true
+			return
+		}
+		r.dropPendingOf(n)
+		until := c.Q.Now + time.Duration(200+op.A%2000)*time.Millisecond
+		r.fault("disk.restored_from_older_image", until)
+		c.Q.At(until, "restart", func() {
+			if err := c.Restart(n); err != nil {
+				c.Violate("C22", "restart-failed", err.Error(), n)
+			}
+		})
+	case "jumpall":
+		// every clock moves forward together (idle time skipped)
+		c.JumpTime(time.Duration(op.A) * time.Second)
+		r.fault("clock.jump_all", c.Q.Now)
 	case "failround":
 		// the next round-transition write(s) of a node hit a failing disk
 		n := r.node(op.N)
@@ -454,7 +498,23 @@ func (r *crun) submit(n *cluster.SNode, tx *common.VersionedTransaction, expectL
 	r.c.Trace.Logf(r.c.Q.Now, "submit n%d %s ok", n.Idx, tx.PayloadHash().String()[:8])
 	if expectLive && !r.lostQueue[n.Idx] {
 		r.accepted = append(r.accepted, tx.PayloadHash())
+		r.submittedTo[tx.PayloadHash()] = n.Idx
 	}
+}
+
+// dropPendingOf forgets the accepted submissions that were handed to node n and
+// are not finalized everywhere yet: a stop (and all the more a restore from an
+// older image) legitimately loses the node's queue, the client would retry.
+func (r *crun) dropPendingOf(n *cluster.SNode) {
+	var keep []crypto.Hash
+	for _, h := range r.accepted {
+		if r.submittedTo[h] == n.Idx && !r.c.FinalizedEverywhere(h) {
+			r.out.Probes["accepted_submission_forgotten_with_the_node_queue"]++
+			continue
+		}
+		keep = append(keep, h)
+	}
+	r.accepted = keep
 }
 
 // settle ends fault injection (heal, restart everything, remove skews and
